@@ -105,7 +105,7 @@ def unit_id(p, i, u, district_gut):
 TF_VARIANTS = [Fraction(1, 2), Fraction(2), Fraction(1, 4), Fraction(4)]  # = lo, = hi, < lo, > hi
 
 
-def materialise(pack, seed, vote_scale=3, exact_boundaries=True, ballast_rep=26, ballast_non=3):
+def materialise(pack, seed, vote_scale=3, exact_boundaries=True, ballast_rep=26, ballast_non=3, shuffle=True):
     """pack: list of abstract scenarios sharing policy, districtOffice, levels.  Returns pre, cur, meta."""
     sc0 = pack[0]
     district_gut = sc0["districtGut"]
@@ -175,9 +175,10 @@ def materialise(pack, seed, vote_scale=3, exact_boundaries=True, ballast_rep=26,
     cur = pd.DataFrame(frow)
     pre = synth.with_margin_features(pre)
     # shuffle rows: nothing may depend on input order
-    rnd = np.random.default_rng(seed + 1)
-    pre = pre.iloc[rnd.permutation(len(pre))].reset_index(drop=True)
-    cur = cur.iloc[rnd.permutation(len(cur))].reset_index(drop=True)
+    if shuffle:
+        rnd = np.random.default_rng(seed + 1)
+        pre = pre.iloc[rnd.permutation(len(pre))].reset_index(drop=True)
+        cur = cur.iloc[rnd.permutation(len(cur))].reset_index(drop=True)
     return pre, cur, meta
 
 
@@ -207,9 +208,9 @@ class OutlierRecorder:
         self.cls._fit_outlier_detection_model = self.orig
 
 
-def run_pack(pack, estimator, seed, pis=(0.7, 0.9), extra_mp=None, client=None, ballast_rep=26, ballast_non=3, **kw):
+def run_pack(pack, estimator, seed, pis=(0.7, 0.9), extra_mp=None, client=None, ballast_rep=26, ballast_non=3, shuffle=True, **kw):
     sc0 = pack[0]
-    pre, cur, meta = materialise(pack, seed, ballast_rep=ballast_rep, ballast_non=ballast_non)
+    pre, cur, meta = materialise(pack, seed, ballast_rep=ballast_rep, ballast_non=ballast_non, shuffle=shuffle)
     setup = EST_SETUP[estimator]
     office = "H" if sc0["districtOffice"] else "G"
     gut = "precinct-district" if sc0["districtGut"] else "precinct"
@@ -265,6 +266,20 @@ def _milli(x, what):
     return int(round(x * 1000))
 
 
+def _token(r):
+    """Digest of every value on a table row: equal tokens <=> bit-for-bit equal rows."""
+    parts = []
+    for k in r.index:
+        v = r[k]
+        if isinstance(v, (float, np.floating)):
+            parts.append(f"{k}={float(v).hex()}")
+        else:
+            parts.append(f"{k}={v}")
+    import hashlib
+
+    return hashlib.sha1("|".join(parts).encode()).hexdigest()[:16]
+
+
 class Projection:
     """Abstract view of the tables one run returned, per packed scenario."""
 
@@ -303,6 +318,7 @@ class Projection:
             "upper": [self._unit_out(r, f"upper_{a}_{self.est}") for a in self.pis],
             "pt": _milli(r["pred_turnout"], "unit pred_turnout") if self.est == "margin" else 0,
             "pm": _milli(r["pred_margin"], "unit pred_margin") if self.est == "margin" else 0,
+            "tok": _token(r),
         }
         return out
 
@@ -344,6 +360,7 @@ class Projection:
                 row["pred"] = _int(r[f"pred_{self.est}"], "group pred")
                 row["lower"] = [_int(r[f"lower_{a}_{self.est}"], "group lower") for a in self.pis]
                 row["upper"] = [_int(r[f"upper_{a}_{self.est}"], "group upper") for a in self.pis]
+            row["tok"] = _token(r)
             rows.append(row)
         return rows
 
@@ -474,7 +491,7 @@ def trace_of(pack, res, meta, estimator, pis):
                 u["pt"], u["pm"] = o["pt"], o["pm"]
             else:
                 u["pred"], u["lower"], u["upper"] = 0, [0] * len(pis), [0] * len(pis)
-                o = dict(o, state="", cat="", reporting=0, votes=0, pred=0, lower=[0] * len(pis), upper=[0] * len(pis), pt=0, pm=0)
+                o = dict(o, state="", cat="", reporting=0, votes=0, pred=0, lower=[0] * len(pis), upper=[0] * len(pis), pt=0, pm=0, tok="absent")
             units.append(u)
             obs_units.append(o)
         sc["units"] = units
@@ -498,4 +515,53 @@ def trace_of(pack, res, meta, estimator, pis):
                 },
             }
         )
+    return out
+
+
+def pair_traces(pack0, extras, estimator, seed, pis, **kw):
+    """C11: run the same election without and with one extra unexpected feed row per packed scenario."""
+    pack1 = []
+    for sc, x in zip(pack0, extras):
+        sc1 = dict(sc)
+        sc1["units"] = list(sc["units"]) + [x]
+        pack1.append(sc1)
+    c0, res0, meta0, _ = run_pack(pack0, estimator, seed, pis=pis, shuffle=False, **kw)
+    c1, res1, meta1, _ = run_pack(pack1, estimator, seed, pis=pis, shuffle=False, **kw)
+    t0 = trace_of(pack0, res0, meta0, estimator, pis)
+    t1 = trace_of(pack1, res1, meta1, estimator, pis)
+    out = []
+    for a, b in zip(t0, t1):
+        sc0 = a["sc"]
+        sc0["order"] = b["sc"]["order"]
+        out.append({"sc0": sc0, "extra": b["sc"]["units"][-1], "obs0": a["obs"], "obs1": b["obs"]})
+    return out
+
+
+def random_extra(rnd, new_state=False):
+    k = rnd.choice(XKINDS)
+    u = mk_unit(
+        99,
+        k,
+        "S0" if new_state else rnd.choice(["S1", "S2"]),
+        NA,
+        NA,
+        NA,
+        rnd.choice(["c1", "c2", "c3", "c9"]),
+        rnd.choice(["d1", "d2", "d9"]),
+        rnd.randrange(1, 500) * 4,
+    )
+    u["kind"] = "extra"
+    return u
+
+
+def states_with_units(sc):
+    """postal codes that appear on some row handed to the model (joined data or unexpected feed rows)."""
+    out = set()
+    for u in sc["units"]:
+        matched = u["inBase"] and u["inFeed"] and u["bstate"] == u["fstate"]
+        in_data = u["inBase"] and (sc["policy"] == "zero" or matched)
+        if in_data:
+            out.add(u["bstate"])
+        elif u["inFeed"]:
+            out.add(u["fstate"])
     return out
